@@ -66,10 +66,15 @@ func RootModule(m Meta) *Module {
 // written in a submodule is defined in the module the submodule belongs to: that is
 // the module whose name and namespace the definition has in data.
 func OriginalModule(m Meta) *Module {
-	mod := definingModule(m)
-	for mod.belongsTo != nil {
+	return belongingModule(definingModule(m))
+}
+
+// belongingModule is the module a submodule belongs to, also when the submodule was included
+// by another submodule. A module is its own.
+func belongingModule(mod *Module) *Module {
+	for mod != nil && mod.belongsTo != nil {
 		parent, valid := mod.parent.(*Module)
-		if !valid || parent == mod {
+		if !valid || parent == nil || parent == mod {
 			break
 		}
 		mod = parent
@@ -106,6 +111,29 @@ func findModuleAndIsExternal(y Definition, prefix string) (*Module, bool, error)
 		return m, false, nil
 	}
 	sub, found := m.imports[prefix]
+	if !found || sub.prefix != prefix {
+		// the imports of a submodule stay indexed by module name
+		found = false
+		for _, candidate := range m.imports {
+			if candidate.prefix == prefix {
+				sub, found = candidate, true
+				break
+			}
+		}
+	}
+	if found && sub.module == nil {
+		// several submodules may import one module, each with an import statement of its
+		// own: the module was loaded for one of them
+		for _, candidate := range belongingModule(m).imports {
+			if candidate.moduleName == sub.moduleName && candidate.module != nil {
+				sub.module = candidate.module
+				break
+			}
+		}
+		if sub.module == nil {
+			return nil, true, errors.New("module " + sub.moduleName + " imported as " + prefix + " is not loaded")
+		}
+	}
 	if !found {
 		if m.belongsTo != nil && m.belongsTo.prefix == prefix {
 			// the prefix a submodule gives its module is the module's own prefix:
